@@ -7,3 +7,11 @@ from maze_dataset.maze.lattice_maze import LatticeMaze
 def bw_roundtrip(m):
     "reading the black/white image of a maze back"
     return LatticeMaze._from_pixel_grid_bw(m._as_pixels_bw())[0]
+
+
+from maze_dataset.dataset.maze_dataset import MazeDataset
+
+
+def minimal_roundtrip(ds):
+    "loading the minimal serialization of a dataset back (in memory)"
+    return MazeDataset._load_minimal(ds._serialize_minimal())
